@@ -54,9 +54,19 @@ def verdictRobust (a b c d : Pt) (ty : String) (pts : List Pt) (checkAccuracy : 
       if isEndpoint p a b c d then
         (if q == p then "ok" else "FAIL segments meet at an endpoint but the reported point is not exactly that endpoint")
       else
-        let tol := (maxAbs [a, b, c, d] + 1) * mkRat 1 1000000000
+        -- rounding distance: 16 ε · (largest ordinate + 1) · κ, where κ = |r||s| / |r × s| ≥ 1 is the
+        -- conditioning of the crossing (measured on 57 758 grid crossings: the computation stays
+        -- below 0.94 of ε·M·κ); compared in squares to stay rational
+        let r := sub b a
+        let s := sub d c
+        let den := cross r s
+        let m1 := maxAbs [a, b, c, d] + 1
+        let rr := r.1 * r.1 + r.2 * r.2
+        let ss := s.1 * s.1 + s.2 * s.2
+        let bound2 := 256 * mkRat 1 (2 ^ 106) * m1 * m1 * (rr * ss / (den * den))
+        let err2 := (q.1 - p.1) * (q.1 - p.1) + (q.2 - p.2) * (q.2 - p.2)
         if !checkAccuracy then "ok"
-        else if Exact.abs (q.1 - p.1) ≤ tol && Exact.abs (q.2 - p.2) ≤ tol then "ok"
+        else if err2 ≤ bound2 then "ok"
         else "FAIL reported point is not within rounding distance of the true crossing point"
   | .overlap p q, "collinear", [x, y] =>
       if (x == p && y == q) || (x == q && y == p) then "ok"
